@@ -774,3 +774,134 @@ func ruleVarintDecodeLoops(e *Engine, r *Report, minInst int, pkgs ...string) {
 	}
 	r.floor(rule, n, minInst)
 }
+
+// ruleRefusalNeverSuccess (C16, C20, C15): some storage steps have no "soft"
+// failure: when publishing a snapshot directory (FinalizeSnapshot) or
+// recording it in the log store fails - including with the out-of-date
+// sentinel - nothing was published, so the caller must not report success.
+// The general error rule lets a sentinel test excuse a nil return (the soft
+// "no saved log" idiom); for these callees it does not.
+func ruleRefusalNeverSuccess(e *Engine, r *Report) {
+	rule := "ERR-refusal"
+	type target struct {
+		m   *types.Func
+		f   *ssa.Function
+		lbl string
+	}
+	var ts []target
+	if f := r.need("(*internal/server.SSEnv).FinalizeSnapshot"); f != nil {
+		ts = append(ts, target{f: f, lbl: "SSEnv.FinalizeSnapshot"})
+	}
+	if f := r.need("(*internal/transport.Chunk).finalize"); f != nil {
+		ts = append(ts, target{f: f, lbl: "Chunk.finalize"})
+	}
+	for _, mn := range []string{"SaveSnapshots", "ImportSnapshot"} {
+		if m := r.needMethod("raftio", "ILogDB", mn); m != nil {
+			ts = append(ts, target{m: m, lbl: "ILogDB." + mn})
+		}
+	}
+	n := 0
+	for _, fn := range e.ScopeFuncs() {
+		if len(fn.Blocks) == 0 || !e.IsLive(outermostFn(fn)) {
+			continue
+		}
+		hasErrRes := errResultIndex(fn) >= 0
+		forEachInstr(fn, func(in ssa.Instruction) {
+			call, ok := in.(*ssa.Call)
+			if !ok {
+				return
+			}
+			lbl := ""
+			for _, t := range ts {
+				if t.f != nil && e.CallsTo(call, t.f) && call.Call.StaticCallee() == t.f {
+					lbl = t.lbl
+				}
+				if t.m != nil && e.IsMethodCall(call, t.m) {
+					lbl = t.lbl
+				}
+			}
+			if lbl == "" {
+				return
+			}
+			vals, hasErr, dropped := errValueOf(call)
+			if !hasErr || dropped {
+				return // dropped results are E1's business
+			}
+			n++
+			okAll := true
+			var wit []string
+			for _, v := range vals {
+				aliases := errAliases(v)
+				for a := range aliases {
+					refs := a.Referrers()
+					if refs == nil {
+						continue
+					}
+					for _, ref := range *refs {
+						bo, ok := ref.(*ssa.BinOp)
+						if !ok || (bo.Op != token.NEQ && bo.Op != token.EQL) || !(isNilConst(bo.X) || isNilConst(bo.Y)) {
+							continue
+						}
+						for _, cf := range ValueUsesAsCond(bo) {
+							errSucc := cf.Block().Succs[0]
+							if bo.Op == token.EQL {
+								errSucc = cf.Block().Succs[1]
+							}
+							if !hasErrRes {
+								// a verdict function: the error edge must not answer true
+								res := e.findPath(fn, errSucc.Instrs[0], func(x ssa.Instruction) bool {
+									ret, ok := x.(*ssa.Return)
+									if !ok || len(ret.Results) == 0 {
+										return false
+									}
+									cb, isC := isConstBool(retOperand(ret, 0))
+									return isC && cb
+								}, nil, nil)
+								if res.Found {
+									okAll = false
+									wit = append(wit, "accepting exit at "+e.ipos(res.Target))
+								}
+								continue
+							}
+							res := e.successFromErrEdgeMode(fn, cf.Block(), errSucc, aliases, hasErrRes, true)
+							if res.Found {
+								okAll = false
+								wit = append(wit, "success exit at "+e.ipos(res.Target))
+							}
+						}
+					}
+				}
+			}
+			// a sentinel test of the error is an error edge as well (there may be no nil test at all:
+			// `if err == ErrX { ... }; return err`)
+			if hasErrRes {
+				for _, v := range vals {
+					aliases := errAliases(v)
+					for _, b := range fn.Blocks {
+						if len(b.Instrs) == 0 {
+							continue
+						}
+						ifi, ok := b.Instrs[len(b.Instrs)-1].(*ssa.If)
+						if !ok {
+							continue
+						}
+						if t, pol := e.sentinelTest(ifi.Cond, aliases); t {
+							errSucc := b.Succs[1]
+							if pol {
+								errSucc = b.Succs[0]
+							}
+							res := e.successFromErrEdgeMode(fn, b, errSucc, aliases, hasErrRes, true)
+							if res.Found {
+								okAll = false
+								wit = append(wit, "success exit at "+e.ipos(res.Target)+" on the edge where the error is the sentinel")
+							}
+						}
+					}
+				}
+			}
+			r.check(okAll, rule, "failure of "+lbl+" in "+fname(fn)+" is never reported as success", e.ipos(in),
+				"every exit from the error edge carries an error or fail-stops (no sentinel is an excuse)", "from the error edge of "+lbl+" (any error, including the out-of-date sentinel) a success exit is reachable: the snapshot was not published / recorded but the caller is told it was", wit...)
+		})
+	}
+	r.floor(rule, n, 6)
+}
